@@ -124,7 +124,7 @@ def records_for(cfg, path, what):
                 rec["post"], rec["scale_post"] = drv.project(), scale_of(drv.tracks)
                 out.append(rec)
         elif what == "rt":
-            for k, fmt in enumerate(["csv", "geff", "internal"]):
+            for k, fmt in enumerate(cfg.formats or ["csv", "geff", "internal"]):
                 drv = replay.reach(cfg, path)
                 if drv.tracks.graph.number_of_nodes() == 0:
                     continue
